@@ -140,6 +140,35 @@ Judge(e) ==
          LET P == ParamSet(e.set)
              y == ExpandMask(HexToBytes(e.rho), e.mu, P)
          IN  Cmp("ExpandMask", [i \in 1 .. P.l |-> PolyQ(y[i - 1])], e.out)
+    \* ---- composite encodings of keys and signatures (Algorithms 22-27)
+    [] e.ev = "sigencode" ->
+         LET P == ParamSet(e.set)
+             hv == Fn([i \in 0 .. P.k - 1 |-> OnesAt(e.h[i + 1])])
+         IN  Cmp("sigEncode", BytesToHex(SigEncode(HexToBytes(e.c), VecOf(e.z), hv, P)), e.out)
+    [] e.ev = "sigdecode" ->
+         LET P == ParamSet(e.set)
+             d == SigDecode(HexToBytes(e.in), P)
+         IN  IF d.ok # e.ok THEN <<"sigDecode accepts/rejects differently from FIPS 204 Algorithm 27", ToString(d.ok)>>
+             ELSE IF ~d.ok THEN <<>>
+             ELSE Cmp("sigDecode",
+                      <<BytesToHex(d.ct), [i \in 1 .. P.l |-> PolyQ(d.z[i - 1])], [i \in 1 .. P.k |-> NonZeroPositions(d.h[i - 1])]>>,
+                      <<e.c, e.z, e.h>>)
+    [] e.ev = "pkdecode" ->
+         LET P  == ParamSet(e.set)
+             pk == HexToBytes(e.in)
+             d  == PKDecode(pk, P)
+         IN  Cmp("pkDecode / pkEncode / tr",
+                 <<BytesToHex(d.rho), [i \in 1 .. P.k |-> PolySeq(d.t1[i - 1])], BytesToHex(H(pk, 64)), BytesToHex(PKEncode(d.rho, d.t1, P))>>,
+                 <<e.rho, e.t1, e.tr, e.re>>)
+    [] e.ev = "skdecode" ->
+         LET P  == ParamSet(e.set)
+             sk == HexToBytes(e.in)
+             d  == SKDecode(sk, P)
+         IN  Cmp("skDecode / skEncode",
+                 <<BytesToHex(d.rho), BytesToHex(d.K), BytesToHex(d.tr), [i \in 1 .. P.l |-> PolyQ(d.s1[i - 1])],
+                   [i \in 1 .. P.k |-> PolyQ(d.s2[i - 1])], [i \in 1 .. P.k |-> PolyQ(d.t0[i - 1])],
+                   BytesToHex(SKEncode(d.rho, d.K, d.tr, d.s1, d.s2, d.t0, P))>>,
+                 <<e.rho, e.K, e.tr, e.s1, e.s2, e.t0, e.re>>)
     [] OTHER -> <<"unknown event", e.ev>>
 
 Start == IF "VERIF_START" \in DOMAIN IOEnv THEN atoi(IOEnv.VERIF_START) ELSE 1
